@@ -138,6 +138,9 @@ func treesEqual(a, b interface{}) bool {
 	return e1 == nil && e2 == nil && ja == jb
 }
 
+// bsu is the two characters backslash, u (built from bytes so that no escape sequence appears in this source file).
+var bsu = string([]byte{92, 117})
+
 func checkC07(c *hx.Ctx) {
 	c.Rule("value trees: exhaustive over all ordered pairs and a third of triples of 30 tricky keys (UTF-16 vs code-point order, controls, escapes), all scalars (30 strings, 30 boundary numbers, literals) in arrays and objects, nested to depth 2, plus random deeper trees; each tree in 6 re-serializations (member order, whitespace, \\u escapes both hex cases, surrogate pairs, \\/, number spellings) through MarshalCanonical([]byte) and, for the value path, MarshalCanonical(value); oracle: output == independent RFC 8785 serialization of the tree (Go reference; Python reference cross-checks every accepted document and every number), fixed point, parses back to the same value; doubles by random bit pattern; rejection classes (duplicate names incl. escaped spelling, truncation at every byte, invalid escapes, lone surrogates in all shapes, raw control characters, trailing content after top-level objects and after top-level arrays) must return an error; after every call (accepted or rejected) the same process canonicalizes a fixed probe document, which must come out unchanged (no state leaking between calls); eight goroutines canonicalize hundreds of documents (value path and byte path) at once, each result compared with the call made alone, under the race detector; executed in crash-isolated workers; non-trivial = tree with >=2 members or a non-integer number; distinct = distinct input byte strings")
 	c.Assume("references: harness/ref/jcs.go (Go, strconv shortest digits) and pyref/jcs_ref.py (Python repr digits); invalid UTF-8 and lenient number spellings are out of the statement's scope")
@@ -494,6 +497,18 @@ func checkC07(c *hx.Ctx) {
 			big["variant"] = float64(k)
 			docs = append(docs, json.RawMessage(ref.MustJCS(big)))
 		}
+		// documents full of control characters (escaped as backslash-u sequences on output), a different one per document
+		for k := 0; k < 24; k++ {
+			ch := []byte{byte(k % 32)}
+			if ch[0] == 8 || ch[0] == 9 || ch[0] == 10 || ch[0] == 12 || ch[0] == 13 {
+				ch[0] = 1
+			}
+			ctl := map[string]interface{}{}
+			for m := 0; m < 40; m++ {
+				ctl[fmt.Sprintf("k%d%s", m, string(ch))] = strings.Repeat(string(ch), 30)
+			}
+			docs = append(docs, json.RawMessage(ref.MustJCS(ctl)))
+		}
 		for round := 0; round < c.N(3, 40); round++ {
 			c.Eval()
 			b, _ := json.Marshal(docs)
@@ -586,6 +601,17 @@ func checkC07(c *hx.Ctx) {
 		reject("raw-control-character", fmt.Sprintf("[\"a%cb\"]", ch))
 		reject("raw-control-character", fmt.Sprintf("{\"k%c\":1}", ch))
 		reject("raw-control-character", fmt.Sprintf("{\"k\":[\"%c\"]}", ch))
+		// a raw control character after an escape sequence in the same string (value, element, member name)
+		for ei, esc := range []string{"\\n", "\\\\", "\\\"", "\\/", "\\t", "\\b", bsu + "0041", bsu + "00e9", bsu + "d83d" + bsu + "de00"} {
+			switch (ch + ei) % 3 {
+			case 0:
+				reject("raw-control-character-after-escape", fmt.Sprintf("{\"a\":\"x%sy%cz\"}", esc, ch))
+			case 1:
+				reject("raw-control-character-after-escape", fmt.Sprintf("[\"%s%c\"]", esc, ch))
+			default:
+				reject("raw-control-character-after-escape", fmt.Sprintf("{\"m%sn%c\":[]}", esc, ch))
+			}
+		}
 	}
 	for _, s := range []string{`["abc`, `["abc\"`, `{"a`, `{"a":"b`, `["é`, `[`, `{`, `[[1,2`, `{"a":{"b":[`, `["a","b`, `{"k":1,`, `[1,`, `{"k":`, `{"k"`, `["\`} {
 		reject("unterminated", s)
@@ -620,7 +646,7 @@ func checkC07(c *hx.Ctx) {
 	}
 	c.Set("worker_crashes", pool.Crashes)
 	for _, cl := range []string{"duplicate-name", "duplicate-name-escaped", "truncation", "trailing-content", "trailing-content-after-array", "invalid-escape", "lone-surrogate-high",
-		"lone-surrogate-low", "lone-surrogate-low-first", "raw-control-character", "unterminated"} {
+		"lone-surrogate-low", "lone-surrogate-low-first", "raw-control-character", "raw-control-character-after-escape", "unterminated"} {
 		c.Floor("rejected:"+cl, 50)
 	}
 	c.Floor("trees:key-pair", 800)
